@@ -84,20 +84,9 @@ func genValueCase(r *rand.Rand) Case {
 	return Case{Mode: "value", Kind: kind, Feat: feat, Src: genValue(r, kind, feat), Margins: []int{pickMargin(r), pickMargin(r)}}
 }
 
-var codeFeats = map[string][]string{
-	"defun":    {"backquote"},
-	"lambda":   {"backquote"},
-	"defmacro": {"backquote"},
-	"call":     {"backquote"},
-}
-
 func genCodeCase(r *rand.Rand, i int) Case {
 	kind := fw.Pick(r, []string{"defun", "defun", "defun", "lambda", "lambda", "defmacro", "call", "call"})
-	feat := ""
-	if r.IntN(7) == 0 {
-		feat = fw.Pick(r, codeFeats[kind])
-	}
-	return buildCodeCase(r, kind, feat, fmt.Sprint(i))
+	return buildCodeCase(r, kind, "", fmt.Sprint(i))
 }
 
 func buildCodeCase(r *rand.Rand, kind, feat, tag string) Case {
@@ -105,7 +94,7 @@ func buildCodeCase(r *rand.Rand, kind, feat, tag string) Case {
 	depth := 2 + r.IntN(3)
 	// a documentation string long enough to be re-flowed by the printer is
 	// compared modulo white space
-	o := codeOpts{backquote: feat == "backquote", longDoc: r.IntN(8) == 0}
+	o := codeOpts{backquote: r.IntN(4) == 0, longDoc: r.IntN(8) == 0}
 	switch kind {
 	case "defun":
 		c.Name = fmt.Sprintf("k%s-%s", tag, fw.Pick(r, []string{"f", "compute", "a-rather-long-function-name", "fn"}))
